@@ -10,6 +10,7 @@ from .ty import *
 from .execu import Res, Out, Unsupported
 from .contracts import REC_OF_CLASS, HEAPCLASSES, CONTRACTS
 from .front import BUILTIN_EXC_BASES
+from .solve import check as hard_check
 
 I = z3.IntVal
 
@@ -111,6 +112,12 @@ class Builtins:
     def imported(self, qual):
         if qual in BUILTIN_EXC_BASES:
             return VClass(qual)
+        consts = {'logging.DEBUG': 10, 'logging.INFO': 20, 'logging.WARNING': 30, 'logging.ERROR': 40,
+                  'logging.CRITICAL': 50}
+        if qual in consts:
+            return VInt(consts[qual])
+        if qual == 'logging.indent':
+            return VNone        # attribute pyikev2.py attaches to the logging module (json indent)
         mod = qual.split('.')[0]
         if qual in ('logging', 'os', 'time', 'json', 'hashlib', 'socket', 'random', 'traceback', 'struct', 'hmac',
                     'select', 'ipaddress', 'enum', 'collections', 'ctypes') or '.' not in qual:
@@ -654,7 +661,7 @@ class Builtins:
         for c in p.pc:
             s.add(c)
         s.add(z3.Not(z3.And(h < 0, -h == z3.Length(last))))
-        if s.check() != z3.unsat:
+        if hard_check(s, 3000) != z3.unsat:
             return None
         rest = leaves[:-1]
         return VBytes(rest[0] if len(rest) == 1 else z3.Concat(*rest))
@@ -671,7 +678,7 @@ class Builtins:
         for c in p.pc:
             s.add(c)
         s.add(z3.Not(z3.And(size == z3.Length(last), off == z3.Length(bufz) - z3.Length(last))))
-        if s.check() != z3.unsat:
+        if hard_check(s, 3000) != z3.unsat:
             return None
         return z3.Concat(*(leaves[:-1] + [newz]))
 
@@ -719,6 +726,24 @@ class Builtins:
         r = z3.Int(fresh_name('rand'))
         p.add(z3.And(ops.as_int(a).z <= r, r < ops.as_int(b).z))
         return [Res(p, VInt(r))]
+
+    def b_random_uniform(self, ex, p, node, a, b):
+        # time is modelled in integer ticks; uniform(a, b) is any value in [a, b]
+        r = z3.Int(fresh_name('uniform'))
+        p.add(z3.And(ops.as_int(a).z <= r, r <= ops.as_int(b).z))
+        return [Res(p, VInt(r))]
+
+    def b_time_time(self, ex, p, node):
+        """time.time(): any value not smaller than the previous reading (ghost `now`)"""
+        t = z3.Int(fresh_name('time'))
+        now = p.ghost.get('now')
+        if now is not None:
+            p.add(t >= now.z)
+        p.ghost['now'] = VInt(t)
+        return [Res(p, VInt(t))]
+
+    def b_json_dumps(self, ex, p, node, obj, **kw):
+        return [Res(p, VStr(z3.Const(fresh_name('json'), S)))]
 
     def b_random_randint(self, ex, p, node, a, b):
         r = z3.Int(fresh_name('rand'))
@@ -781,6 +806,8 @@ class Builtins:
             if meth == 'append':
                 v = vals[0]
                 elem = base.elem
+                if elem is not None and elem.kind == 'rec' and elem.name == 'Event' and isinstance(v, VTuple):
+                    v = self.event_of_tuple(ex, v, node)
                 if elem is None:
                     elem = ty_of(v)
                     z = z3.Unit(to_z3(v, elem))
@@ -822,8 +849,56 @@ class Builtins:
                 return self.list_remove(ex, base, vals[0], p, node)
         raise Unsupported(f'{meth} on {base!r} at {ex.where(node)}')
 
+    def event_of_tuple(self, ex, v, node):
+        """(self.process_acquire, tsi, tsr, index) / (self.process_expire, spi, hard): the queued trigger
+        tuples of IkeSa.pending_events as Event records (kind 0 / 1)"""
+        f = v.items[0]
+        none_ts = VNone
+        if isinstance(f, VFunc) and f.qual == 'ikesa.IkeSa.process_acquire' and len(v.items) == 4:
+            return mk_rec('Event', {'kind': VInt(0), 'tsi': v.items[1], 'tsr': v.items[2], 'index': v.items[3],
+                                    'spi': VBytes(b''), 'hard': VBool(False)})
+        if isinstance(f, VFunc) and f.qual == 'ikesa.IkeSa.process_expire' and len(v.items) == 3:
+            return mk_rec('Event', {'kind': VInt(1), 'tsi': none_ts, 'tsr': none_ts, 'index': VInt(0),
+                                    'spi': v.items[1], 'hard': VBool(ops.truth(v.items[2]))})
+        raise Unsupported(f'queued event tuple of unknown shape at {ex.where(node)}')
+
+    def tuple_of_event(self, ex, ev, p):
+        """inverse of event_of_tuple, one Res per kind"""
+        out = []
+        selfv = p.env.get('self')
+        kind = rec_get(ev, 'kind').z
+        q = p.fork()
+        if q.assume(kind == 0, ('event', 0)):
+            tsi, tsr = rec_get(ev, 'tsi'), rec_get(ev, 'tsr')
+            q.add(z3.And(z3.Not(tsi.isnone), z3.Not(tsr.isnone)))
+            out.append(Res(q, VTuple([VFunc('ikesa.IkeSa.process_acquire', self_v=selfv), tsi.val, tsr.val,
+                                      rec_get(ev, 'index')])))
+        if p.assume(kind != 0, ('event', 1)):
+            out.append(Res(p, VTuple([VFunc('ikesa.IkeSa.process_expire', self_v=selfv), rec_get(ev, 'spi'),
+                                      rec_get(ev, 'hard')])))
+        return out
+
     def list_remove(self, ex, base, v, p, node):
-        raise Unsupported(f'list.remove at {ex.where(node)}')
+        """list.remove(x): first element equal to x is removed, ValueError if there is none.  Modelled for
+        lists of records with structural equality: the result is prefix ++ suffix around a witness index"""
+        if base.elem is None:
+            return [Res(p, exc=VExc('ValueError'))]
+        zv = to_z3(v, base.elem)
+        n = z3.Length(base.z)
+        out = []
+        q = p.fork()
+        if q.assume(z3.Not(z3.Contains(base.z, z3.Unit(zv))), ('remove', node.lineno, 'absent')):
+            out.append(Res(q, exc=VExc('ValueError')))
+        w = z3.Int(fresh_name('rm'))
+        j = z3.Int(fresh_name('j'))
+        p.add(z3.And(0 <= w, w < n, base.z[w] == zv))
+        p.add(z3.ForAll([j], z3.Implies(z3.And(0 <= j, j < w), base.z[j] != zv)))
+        new = z3.Concat(z3.Extract(base.z, I(0), w), z3.Extract(base.z, w + 1, n - w - 1))
+        p.add(z3.Length(new) == n - 1)
+        if p.feasible():
+            p.trail.append(('remove', node.lineno, 'found'))
+            out.append(Res(p, (VList(base.elem, new), VNone)))
+        return out
 
     def contains(self, ex, a, b, p, node):
         if isinstance(b, (VTuple, VFrozenSet, VRange, VConstDict, VStr)):
